@@ -172,7 +172,7 @@ class Ctx:
         return r.stdout
 
     # -------------------------------------------------------------- drivers
-    def drv(self, family, args=(), race=False, timeout=150, tags="test verif", extra_env=None):
+    def drv(self, family, args=(), race=False, timeout=150, tags="test verif", extra_env=None, crash_violation=False):
         exe = self.build("drv", race=race, tags=tags)
         self.n += 1
         d = os.path.join(self.scratch, "drv%d" % self.n)
@@ -211,6 +211,15 @@ class Ctx:
             res["partial"] = True
             self.partial = "driver %s ran out of time (partial trace validated)" % family
             self.step("drv", family=family, args=list(args), wall_s=res["wall_s"], partial=True)
+            return res
+        if res["rc"] != 0 and kw.get("crash_violation") and ("panic:" in res["stderr"] or "fatal error:" in res["stderr"]) \
+                and "gca-backend/" in res["stderr"] and "verifharness/hx.must" not in res["stderr"]:
+            # a goroutine of the code under test panicked and took the driver process down:
+            # that is an observation of the real code, not a harness failure
+            first = [l for l in res["stderr"].splitlines() if l.startswith("panic:") or l.startswith("fatal error:")]
+            self.violation("the process died while the driver %s was running: %s" % (family, (first or ["?"])[0]),
+                           files={"trace.ndjson": res["trace"], "drv.out": os.path.join(res["dir"], "drv.out")})
+            res["crashed"] = True
             return res
         if res["rc"] != 0:
             raise Broken("driver %s exited %d:\n%s" % (family, res["rc"], res["stderr"][-3000:]))
